@@ -9,7 +9,12 @@ _K1_NOTE = ("Trusted: the rxvc VC generator and its encoding of the Python subse
             "in /verif/specs (each validated on every run against the literal Python list expression on an exhaustive small "
             "scope - that validation is bounded), A-serial (handlers of one operator instance are not entered concurrently or "
             "re-entered by their own downstream call), A-cb (deterministic user callbacks). The subscribe-boundary wrapper "
-            "(C01) is what makes events after a terminal unobservable; it is proved separately.")
+            "(C01) is what makes events after a terminal unobservable; it is proved separately. The contracts of the disposable "
+            "containers / Subject the handlers are run against are re-proved inside the check of every property that uses them "
+            "(registry.callee_units, read off the imports of the property's files on every run), and the functions' state is proved to "
+            "be allocated per subscription and per application (frame.run_local) - the K1 proof is about one subscription of one "
+            "application. A member of a handler family that notifies from inside its own subscribe call runs nested in the step that "
+            "subscribes it: what the nested handler subscribed must still be live when that step returns.")
 
 _K3_NOTE = ("Trusted: the rxvc VC generator; z3/cvc5; A-gil (a single attribute load/store or list.append on a built-in object is "
             "atomic); the Lock/RLock contract (mutual exclusion, RLock re-entrant); the sidecar monitor invariant, rely and token "
@@ -146,20 +151,33 @@ CHECKS_K1 = {
                 "outer error terminates, completion only when the outer completed and no inner is live; with max_concurrent at most n "
                 "inners are subscribed, the others wait in a FIFO queue and the next one starts when a live one completes (same "
                 "source, same moment as the spec); operator state is consistent at every point where an inner is subscribed, so inners "
-                "that complete synchronously inside subscribe are covered.",
-        "note": _K1_NOTE + _HO_NOTE + " Covered here: merge_all_, merge_ with max_concurrent. Not yet under contract (not covered by this "
-                "claim): n-ary reactivex.merge, flat_map, flat_map_indexed, concat_map (thin compositions over these two). No native "
-                "replay runner for higher-order timelines yet: counter-models are reported with no-failing-input-found.",
-        "technique": "K1 handler refinement with handler families and call-out discipline, SMT",
+                "that complete synchronously inside subscribe are covered. The compositions are under wiring contracts (flatwire.py, real "
+                "code executed symbolically with the stage operators used by contract): _flat_map_internal is source | "
+                "map_indexed(P) | merge_all() where P calls the user's function exactly once with the element (and the index for the "
+                "indexed form) and returns the very observable it got, from_future of a future, from_ of anything else, an exception "
+                "propagating unchanged; flat_map_ / flat_map_indexed_ pass a callable mapper on and turn a non-callable one into the "
+                "constant function; ops.concat_map is map(project) | merge(max_concurrent=1); reactivex.merge / observable.merge.merge_ "
+                "is from_iterable(the very sources in order) | merge_all(); ops.merge / merge_all / flat_map / flat_map_indexed are "
+                "their implementation functions with the very arguments. The contracts of the containers these functions use "
+                "(CompositeDisposable, SingleAssignmentDisposable: C26) are re-proved inside this check, and the functions' state is "
+                "proved to be allocated per subscription / per application (frame condition).",
+        "note": _K1_NOTE + _HO_NOTE + " Assumed in the wiring unit: alias(name, doc, f) is f under another name (types.FunctionType copy). "
+                "flatrun.py (native TestScheduler grid over a pool of inner sequences - cold, synchronous, failing, never-ending, the same "
+                "one twice - against an event simulation written from the property text: outputs and subscription intervals) is the "
+                "replay search, the thorough cross-check and the bounded stand-in on drift.",
+        "technique": "K1 handler refinement with handler families and call-out discipline; function contracts for the compositions (wiring); callee contracts re-proved; frame conditions; SMT",
     },
     "C12": {
         "text": "switch_latest_ is proved to refine its spec machine: an inner element/error/completion is forwarded iff its inner is the "
                 "most recently received one (arrival number equals the counter), the previous inner is unsubscribed before the new one "
                 "is subscribed (event order compared with the spec, via the SerialDisposable contract of C26), completion iff the outer "
-                "completed and the latest inner completed; state is consistent where the new inner is subscribed.",
-        "note": _K1_NOTE + _HO_NOTE + " Covered: switch_latest_. Not yet under contract: switch_map, switch_map_indexed, flat_map_latest "
-                "(compositions of map and switch_latest).",
-        "technique": "K1 handler refinement with handler families (arbitrary inner id), event-order comparison, SMT",
+                "completed and the latest inner completed; state is consistent where the new inner is subscribed. switch_map, "
+                "switch_map_indexed and flat_map_latest_ are proved (wiring contracts, flatwire.py) to be EXACTLY map(project) resp. "
+                "map_indexed(project) followed by switch_latest() with the user's function handed on unchanged - no stage in between. "
+                "SerialDisposable / SingleAssignmentDisposable / CompositeDisposable contracts are re-proved inside this check; state is "
+                "per subscription (frame condition).",
+        "note": _K1_NOTE + _HO_NOTE + " flatrun.py (native grid, see C11) is the replay search, thorough cross-check and bounded stand-in.",
+        "technique": "K1 handler refinement with handler families (arbitrary inner id), event-order comparison; function contracts for the compositions; SMT",
     },
     "C13": {
         "text": "amb_ (binary, exact): the first source to notify is mirrored and the other one is unsubscribed in that very step (event "
@@ -318,7 +336,9 @@ CHECKS_K1 = {
                 "it. Registration + replay and (append + snapshot) are critical sections of the same lock, so a value is either "
                 "replayed or forwarded to a given subscriber - never both, never neither: nothing duplicated, lost or reordered. "
                 "The terminal cores snapshot and clear the subscribers (and keep the error), trim, and give the terminal to every "
-                "subscriber they had. RemovableDisposable / dispose unregister and clear.",
+                "subscriber they had. RemovableDisposable / dispose unregister and clear. The ScheduledObserver contract this argument "
+                "uses (every notification handed to it is delivered to the wrapped observer exactly once, in order, the terminal last: "
+                "C32) is re-proved inside this check.",
         "note": "Trusted: rxvc; z3; A-time (integer ticks, the scheduler clock is an opaque monotone reading bounded by 10^15; "
                 "timedelta.max is modelled as 10^18); QueueItem (a NamedTuple) is modelled as the pair (interval, value); deque.popleft "
                 "/ append are sequence operations; what a ScheduledObserver does with what it is given (exactly-once, in-order "
@@ -552,7 +572,8 @@ CHECKS_K1 = {
                 "removes one entry from the queue before calling out (so any finite schedule, self-rescheduling included, drains); "
                 "no path raises, and no path re-acquires the non-reentrant scheduler lock it holds (self-deadlock), for numeric and "
                 "datetime clocks and any spinning count; the loops are left only when nothing due remains; both end with the "
-                "scheduler disabled, so a drained scheduler can be started again.",
+                "scheduler disabled ON EVERY WAY OUT (also returns in front of the run loop), so a drained or idle scheduler can be "
+                "started again.",
         "note": _VTS_NOTE + " Termination is relative to the property's own bound: finitely many actions are ever scheduled.",
         "technique": "loop variant (one entry consumed per iteration) + no-self-deadlock and returns-normally obligations, SMT; watchdog replay",
     },
